@@ -536,6 +536,19 @@ func (c *Ctx) bvbin(op string, a, b *Term) *Term {
 		if a == b {
 			return a
 		}
+		// x & (2^m - 1)  ==>  zext(extract(x, m-1, 0))   (lets shifts/masks of byte assemblies fold)
+		if b.isConst && w <= 64 && b.cv != 0 && b.cv&(b.cv+1) == 0 && !a.isConst {
+			m := 0
+			for v := b.cv; v != 0; v >>= 1 {
+				m++
+			}
+			if m < w && (a.op == "bvlshr" || a.op == "bvor" || a.op == "bvand" || a.op == "bvxor" || a.op == "concat" || a.op == "bvshl" || a.op == "zext") {
+				lowBits := c.Extract(a, m-1, 0)
+				if lowBits.isConst || lowBits.op != "extract" {
+					return c.ZExt(lowBits, w)
+				}
+			}
+		}
 		// zext(x) & mask where mask covers all of x's bits
 		if b.isConst && w <= 64 && a.op == "zext" {
 			iw := a.args[0].sort.W
